@@ -40,7 +40,8 @@ def run_case(case, rec, cid):
 
 
 def classify(case, rej, events):
-    if "rec" in case:
+    if "rec" in case and rej["clause"] in ("count-not-n", "end-anchor-not-included", "consecutive-points-not-one-interval-apart",
+                                           "more-than-n-points", "next-not-previous-plus-interval"):
         return recur.known_class(case["rec"])
     return None
 
